@@ -132,6 +132,18 @@ CHECKS = {
             "Trusts TLC/SANY and the Bitwise Java overrides; injectivity is relative to the ideal-permutation assumption.",
             "TLA+ STROBE/Merlin/Keccak spec: symbolic toy model checked by TLC + real-scale trace validation of recorded operation histories",
             "5/C13"),
+    "C07": ("model_checking",
+            "Montgomery.tla holds the RFC 7748 ladder verbatim (the definition) and the code's Costello-Smith ladder; TLC checks on the "
+            "Montgomery form of complete toy curves, for every u string (u >= p, ignored top bit, twist, low order) and every scalar string, "
+            "that both ladders agree, equal u([clamp(s)]P) through the Edwards group law, give zero on low-order inputs, and that the "
+            "fixed-base route and Diffie-Hellman symmetry hold for all key pairs. At real scale TLC evaluates the RFC ladder on recorded "
+            "calls: the complete family of special u values (low order, every u in [p,2^255), bit 255 set, non-canonical forms), length "
+            "errors, clamping-sensitive scalars, X25519 / ScalarMult / ScalarBaseMult / DiffieHellman / Public and the Ed25519 conversions, "
+            "on two (quick) or four (thorough) backends.",
+            "Trusts TLC/SANY, BigNat/F25519, RFC 7748 pseudo-code as definition, SHA-512 table for the private-key conversion. Field-level "
+            "carry defects that need a crafted u (probability ~2^-47 on random input) are the business of C04's carry-extreme families.",
+            "TLA+ RFC 7748 ladder: exhaustive TLC on toy Montgomery curves + real-scale TLC trace validation of recorded X25519 calls",
+            "5/C07"),
 }
 
 NOT_YET = "check not built yet in this round (planned, see DESIGN.md section 11); not claimed until its machinery exists"
